@@ -7,9 +7,13 @@ reference tables), which are folded.
 
 * encoder: the paths of the function are walked once under the named assumption "the argument is bytes" and once under
   "the argument is str" (this prunes the isinstance tests; every other branch is followed both ways).  The returned
-  value of a path is a term over the parameter (repr / slice / replace / concatenation ...).  The rules look at that
-  term, so it does not matter which variables carry the intermediate values, whether calls are chained, whether the
-  branches are nested ifs or early returns, or whether a step lives in an (inlined) helper.
+  value of a path is a term over the parameter (repr / codec step / slice / replace / concatenation ...).  The rules look
+  at that term, so it does not matter which variables carry the intermediate values, whether calls are chained, whether
+  the branches are nested ifs or early returns, or whether a step lives in an (inlined) helper.  The escaper at the core of
+  the term is described abstractly (`_Escaper`: which characters it emits as plain tokens, which as backslash pairs); two
+  are known - repr() pinned to the single-quote style and the unicode_escape codec over a latin-1 decoding - and every
+  replacement applied on top is judged against that token structure (does a match always coincide with a token the
+  escaper emitted, or can it start in the middle of an escaped backslash?).
 * decoder: the body of the decoding loop is walked ONCE, with the characters the iterator delivers symbolic.  The only
   thing learnt about a character is the outcome of the comparisons the decoder itself makes with its own literals
   (`c == "x"`, `c in "nrt"`, `c in TABLE`, `TABLE.get(c)`, `TABLE[c]`, `match c: case "n"`, `ord(c) == 0x6E`): such a
@@ -34,15 +38,25 @@ Technique
 
 R1 (encoder)  1 (AST, inlined helpers), 2 (paths pruned by the named assumption isinstance(value, bytes|str); other tests
               followed both ways), 3 (per-path symbolic term of the returned literal over the parameter, compared
-              structurally: `"` + X + `"`, X = replace layers over slice layers over repr(<const> + value + <const>)),
-              6 (folding of the code's own constants: slice bounds, replace arguments, the escaped length of the pin
-              constant, `re.sub` patterns via their parsed syntax tree).
+              structurally: `"` + X + `"`, X = replace layers over slice layers over repr(<const> + value + <const>), or
+              replace layers over value.decode(latin-1).encode(unicode_escape).decode(<ascii compatible>)),
+              6 (folding of the code's own constants: slice bounds, replace arguments, codec names, the escaped length of the
+              pin constant, `re.sub` patterns via their parsed syntax tree),
+              4 (finite abstract domain for the escaper's output: per character "plain token / backslash pair / hex escape";
+              a replacement backslash + X is checked against it: X plain => a match can start at the second half of an
+              escaped backslash => violated unless the replacement itself starts with a backslash (undecided)).
               Lemmas: L1 repr(bytes) escapes byte-wise and picks the double-quote delimiter only for a value that
               contains ' and no " - a concatenated b'"' pins the single-quote style, and the text of the value starts
               2 + len(escaped prefix constant) characters in and ends 1 + len(escaped suffix constant) before the end;
               L2 the escaped text is printable ASCII in which a backslash only starts an escape pair, so replace
               ('"' -> backslash + '"') and (backslash + "'" -> "'") touch disjoint matches and commute, and a replacement
-              whose pattern contains a character outside 0x20..0x7e can never match.
+              whose pattern contains a character outside 0x20..0x7e can never match;
+              L1b the unicode_escape codec applied to latin-1 decoded bytes emits the same tokens as L1 except that the
+              single quote stays a plain token; its output is ASCII, so the final ascii / latin-1 / utf-8 decoding is the
+              identity; decoding the value as ascii / utf-8 instead of latin-1 raises for bytes >= 0x80;
+              L2b a backslash is always the first character of a token and the backslash byte is two backslashes: if X is
+              a plain token, the bytes (0x5c, X) give backslash backslash X and str.replace(backslash + X, R) matches at the
+              second backslash - the first one then pairs with R[0]; if X is always escaped, every match is that pair.
 R2 (decoder)  1, 2 (has_next() / data-dependent tests fork the path; tests on unknown values are followed both ways and
               mark the path as guessed -> undecided, not violated), 3 (ONE symbolic iteration: event traces with appended
               terms ord(c), int(<digits at offsets>, base), constants), 4 (cursor offset / availability typestate: a read
@@ -52,7 +66,9 @@ R2 (decoder)  1, 2 (has_next() / data-dependent tests fork the path; tests on un
               Lemmas: L3 ord/chr are inverse bijections (ord(c) == k <=> c == chr(k)); L4 a one-character string is in a
               str s iff it is one of the characters of s, and equals no string of another length; L5 for 0 <= x <= 255:
               x & K == x iff the low eight bits of K are set, x % K == x iff K > 255 (the range 0..255 is the iterator's
-              `& 0xFF`, itself an R2 obligation).
+              `& 0xFF`, itself an R2 obligation); L7 under the named assumption that the characters of a \\xHH / \\uHHHH
+              escape are hex digits, int(<n digits>, 16) ranges over 0..16**n - 1 and equals 256 * <leading digits> + <low
+              pair>, so `& K` yields the low pair iff K & (16**n - 1) == 0xFF and `% K` iff K == 256 (n > 2) / K > 255 (n == 2).
               Quote stripping and the `& 0xFF` mask: 1, 3 (definitions inlined, slice/strip layers compared structurally).
 R3            5 (the escape letters CPython's repr(bytes) and the encoder can emit - a reference vocabulary - looked up
               in the case split of R2).
@@ -113,6 +129,8 @@ class _Sym:
             return f"<characters {', '.join(str(p - 2) for p in self.args[0])} after the escape letter>"
         if self.tag == "int":
             return f"int(<characters {', '.join(str(p - 2) for p in self.args[0])} after the escape letter>, {self.args[1]})"
+        if self.tag == "mask":
+            return f"{self.args[0]!r} {self.args[1]} 0x{self.args[2]:x}" if self.args[2] >= 0 else f"{self.args[0]!r} {self.args[1]} {self.args[2]}"
         return f"{self.tag}({', '.join(map(repr, self.args))})"
 
 
@@ -139,7 +157,7 @@ _PURE_METHODS = {
     set: {"union", "intersection", "copy"},
     int: {"to_bytes", "bit_length"},
 }
-_NOT_NONE_TAGS = {"digits", "int", "bytesof", "buf", "iter", "repr", "slice", "rep", "condrep", "cat", "fmt", "char", "ord", "mask"}
+_NOT_NONE_TAGS = {"digits", "int", "bytesof", "buf", "iter", "repr", "slice", "rep", "condrep", "cat", "fmt", "char", "ord", "mask", "codec"}
 
 
 def _concrete(v, depth=0) -> bool:
@@ -825,9 +843,37 @@ class _Enc(_Interp):
                 if lit is not None and rl is not None:
                     return _Sym("rep", (subject, lit, rl), "str")
                 return _Sym("condrep", (subject, repr(pat), repr(rep)), "str")
+        if name in ("codecs.decode", "codecs.encode") and 1 <= len(e.args) <= 2 and not e.keywords and not any(isinstance(a, ast.Starred) for a in e.args):
+            vals = [self.ev(a) for a in e.args]
+            r = self.codec_step(vals[0], name.split(".")[1], vals[1:], {})
+            if r is not None:
+                return r
+            syms = [a for a in vals if isinstance(a, _Sym) and a.tag != "unk"]
+            return _Sym("opaque", (src(e)[:60],) + tuple(syms), None) if syms else self.unk(e)
         return _NOHOOK
 
+    def codec_step(self, recv, direction, args, kws):
+        """bytes.decode(<codec>) / str.encode(<codec>) with a constant codec name and default error handling: a `codec` term."""
+        if not (isinstance(recv, _Sym) and recv.tag != "unk" and recv.typ == ("bytes" if direction == "decode" else "str")):
+            return None
+        if len(args) == 1 and not kws:
+            name = args[0]
+        elif not args and set(kws) == {"encoding"}:
+            name = kws["encoding"]
+        elif not args and not kws:
+            name = "utf-8"
+        else:
+            return None
+        name = _codec_name(name)
+        if name is None:
+            return None
+        return _Sym("codec", (recv, direction, name), "str" if direction == "decode" else "bytes")
+
     def sym_method(self, e, recv, attr, args, kws):
+        if attr in ("decode", "encode"):
+            r = self.codec_step(recv, attr, args, kws)
+            if r is not None:
+                return r
         if isinstance(recv, _Sym) and recv.tag != "unk":
             if attr == "replace" and recv.typ == "str" and len(args) >= 2 and isinstance(args[0], str) and isinstance(args[1], str):
                 if len(args) == 2 and not kws:
@@ -861,10 +907,26 @@ class _Enc(_Interp):
             return self.as_str(args[0])
         if name in ("bytes", "bytearray") and len(args) == 1 and isinstance(args[0], _Sym) and args[0].typ == "bytes" and not kws:
             return args[0]
+        if name in ("str", "bytes") and len(args) == 2 and not kws:  # str(b, codec) == b.decode(codec), bytes(s, codec) == s.encode(codec)
+            r = self.codec_step(args[0], "decode" if name == "str" else "encode", [args[1]], {})
+            if r is not None:
+                return r
         syms = [a for a in list(args) + list(kws.values()) if isinstance(a, _Sym) and a.tag != "unk"]
         if syms:
             return _Sym("opaque", (src(e)[:60],) + tuple(syms), None)
         return _NOHOOK
+
+
+def _codec_name(name):
+    """Canonical name of a codec given by a constant of the analysed code (the stdlib codec registry is a reference table)."""
+    if not isinstance(name, str):
+        return None
+    import codecs
+
+    try:
+        return codecs.lookup(name).name
+    except Exception:
+        return None
 
 
 def _literal_regex(pat):
@@ -941,6 +1003,8 @@ def _show(v) -> str:
             return f"repr({_show(v.args[0])})"
         if v.tag == "fmt":
             return f"str({_show(v.args[0])})"
+        if v.tag == "codec":
+            return f"{_show(v.args[0])}.{v.args[1]}({v.args[2]!r})"
         if v.tag == "opaque":
             return f"<{v.args[0]}>"
         return repr(v)
@@ -992,6 +1056,55 @@ def _esc_len(b: bytes) -> int:
     return len(repr(b'"' + b)) - 4
 
 
+class _Escaper:
+    """Abstract description of a byte-wise escaper (a reference fact about a CPython primitive, see lemmas L1 / L1b): the escaped
+    text is a sequence of tokens, one per byte - a printable ASCII character standing for itself (`plain`), a two-character
+    pair backslash + letter (`pairs`), or backslash + x + two hex digits.  A backslash only ever occurs as the first character
+    of a token; the backslash byte itself is the pair backslash + backslash."""
+
+    def __init__(self, name, unescaped_quote):
+        self.name = name
+        # the single quote is the one printable character the two escapers treat differently
+        self.pairs = {"\\", "n", "r", "t"} | (set() if unescaped_quote else {"'"})
+        self.not_plain = {"\\"} | (set() if unescaped_quote else {"'"})
+
+    def plain(self, ch) -> bool:
+        """`ch` can occur in the escaped text as a token of its own (directly after any other token, e.g. an escaped backslash)."""
+        return len(ch) == 1 and 0x20 <= ord(ch) <= 0x7E and ch not in self.not_plain
+
+
+_REPR_PINNED = _Escaper("repr() pinned to the single-quote style", unescaped_quote=False)
+_UNICODE_ESCAPE = _Escaper("the unicode_escape codec over the latin-1 decoding", unescaped_quote=True)
+_ASCII_COMPATIBLE = ("ascii", "iso8859-1", "utf-8")
+
+
+def _codec_escaper(x):
+    """`x` = <bytes value>.decode(C1).encode('unicode_escape').decode(C3): ("ok", description) / ("bad", why) / ("und", why);
+    None when `x` is not a codec chain over the parameter at all.
+
+    Lemma L1b (CPython unicode_escape encoder, code points below 0x100): a printable ASCII character other than the backslash
+    stands for itself (so BOTH quote characters stay unescaped), the backslash becomes two backslashes, TAB / LF / CR become
+    backslash + t / n / r, every other code point backslash + x + two hex digits; the output is pure ASCII.  latin-1 decoding
+    maps byte b to code point b (a bijection onto 0..255); decoding pure ASCII as ascii / latin-1 / utf-8 is the identity."""
+    chain = []
+    y = x
+    while isinstance(y, _Sym) and y.tag == "codec":
+        chain.append((y.args[1], y.args[2]))
+        y = y.args[0]
+    if not chain or not (isinstance(y, _Sym) and y.tag == "param"):
+        return None
+    chain.reverse()  # innermost first
+    desc = "value" + "".join(f".{d}({c!r})" for d, c in chain)
+    if len(chain) != 3 or [d for d, _ in chain] != ["decode", "encode", "decode"] or chain[1][1] != "unicode-escape":
+        return "und", f"the bytes value is converted with {desc}, which is not an escaper the analysis knows"
+    c1, c3 = chain[0][1], chain[2][1]
+    if c1 in ("ascii", "utf-8"):
+        return "bad", f"{desc}: decoding the bytes value as {c1} raises for (sequences of) bytes >= 0x80, the value must be decoded byte-wise (latin-1)"
+    if c1 != "iso8859-1" or c3 not in _ASCII_COMPATIBLE:
+        return "und", f"{desc}: codec {c1 if c1 != 'iso8859-1' else c3!r} is not modelled"
+    return "ok", desc
+
+
 def _encoder_paths(ctx, f, ptype):
     def run(o):
         it = _Enc(ctx, f, o, ptype)
@@ -1037,6 +1150,7 @@ def r1(ctx):
         # ---- the escaper: repr(<bytes containing a double quote> + value) with the delimiters and the pin sliced off
         ns = _net_slice(x)
         mixed = ns is not None and bool(_peel(ns[2])[0])  # replacements *below* the slice: offsets depend on the data
+        model = None  # the escaper whose output the replacements below are applied to, when it is a known one
         if _is_raw(x):
             (esc_und if guessed else esc_bad).append("the bytes value reaches the literal without the repr-based escaper" + (" on a condition that is not understood" if guessed else ""))
         elif ns is None:
@@ -1057,10 +1171,21 @@ def r1(ctx):
                         esc_bad.append(f"{desc}: nothing pins repr() to the single-quote style (a b'\"' must be concatenated to the value), so a value with ' and without \" is delimited by double quotes and its ' stay unescaped")
                     elif (lo, hi) != (need_lo, need_hi):
                         esc_bad.append(f"{desc}: the slice must strip exactly b' + the pin and the closing quote, i.e. [{need_lo}:{need_hi}]")
+                    else:
+                        model = _REPR_PINNED
                 else:
                     esc_und.append(f"argument of repr() is not <constant> + value: {_show(inner.args[0])}")
             elif _is_raw(inner):
                 (esc_und if guessed else esc_bad).append("the bytes value reaches the literal without the repr-based escaper" + (" on a condition that is not understood" if guessed else ""))
+            elif _codec_escaper(inner) is not None:
+                status, info = _codec_escaper(inner)
+                if status == "ok" and (lo, hi) != (0, 0):
+                    esc_bad.append(f"{info}[{lo}:{hi if hi else ''}]: the codec adds no delimiters, the slice cuts characters of the escaped value")
+                elif status == "ok":
+                    esc_seen.append(info)
+                    model = _UNICODE_ESCAPE
+                else:
+                    (esc_bad if status == "bad" else esc_und).append(info)
             else:
                 esc_und.append(f"the bytes value is escaped by something other than repr(): {_show(inner)}")
         # ---- the double-quote replacement is applied to the escaped text
@@ -1081,16 +1206,20 @@ def r1(ctx):
         else:
             q_bad.append("a bytes-derived value can reach the return without the double-quote replacement: " + _show(val))
         # ---- any other rewriting of the escaped text (repr output is printable ASCII, backslashes only in escape pairs)
-        for l in layers:
-            if l.tag == "rep" and (l.args[1], l.args[2]) not in (('"', '\\"'), ("\\'", "'")) and l.args[1] != '"':
-                a, b = l.args[1], l.args[2]
-                o_seen.append((a, b))
-                if a == "\\'":
-                    o_bad.append(f"the escaped single quote \\' is rewritten to {b!r} (only the plain quote keeps the byte)")
-                elif a and all(0x20 <= ord(ch) <= 0x7E for ch in a):
-                    o_und.append(f"the escaped text is additionally rewritten ({a!r} -> {b!r}); not known to keep the bytes")
-            elif l.tag == "rep" and (l.args[1], l.args[2]) == ("\\'", "'"):
-                o_seen.append(("\\'", "'"))
+        for k, l in enumerate(layers):
+            if l.tag != "rep" or l.args[1] == '"':
+                continue
+            a, b = l.args[1], l.args[2]
+            o_seen.append((a, b))
+            split = _splits_escaped_backslash(model, a, b, layers[k + 1:])
+            if split is not None:
+                (o_bad if split[0] else o_und).append(split[1])
+            elif (a, b) == ("\\'", "'"):
+                pass
+            elif a == "\\'":
+                o_bad.append(f"the escaped single quote \\' is rewritten to {b!r} (only the plain quote keeps the byte)")
+            elif a and a != b and all(0x20 <= ord(ch) <= 0x7E for ch in a):
+                o_und.append(f"the escaped text is additionally rewritten ({a!r} -> {b!r}); not known to keep the bytes")
     if not pb:
         esc_und.append("no path")
     _verdict(ctx, "R1", "TAINT", f, "bytes escaper", esc_bad, esc_und,
@@ -1118,6 +1247,37 @@ def r1(ctx):
             s_bad.append("str values can reach the return with unescaped double quotes: " + _show(val))
     _verdict(ctx, "R1", "TAINT", f, "quote replacement for str", s_bad, s_und, "str values get their double quotes escaped on every path")
     _verdict(ctx, "R1", "TAINT", f, "return f'\"{value}\"'", ret_bad, ret_und, "on every path the literal is the escaped value between two double quotes")
+
+
+def _splits_escaped_backslash(model, a, b, earlier):
+    """A replacement (a -> b) applied to the output of the escaper `model`, a = backslash + X: can a match be anything but an
+    escape pair the escaper emitted?  (True, why) violated / (False, why) undecided / None (no such match, or not this kind).
+
+    Lemma L2b: in the escaped text a backslash is always the first character of a token and the backslash byte is the pair
+    backslash + backslash.  If X can follow as a plain token of its own, the bytes (0x5c, X) give backslash, backslash, X; the
+    left-to-right scan of str.replace finds `a` at the SECOND backslash (the first position does not match because X is not a
+    backslash), so the rewrite splits the escaped backslash: its first half now pairs with the first character of `b`, which
+    decodes to the backslash byte only if that character is a backslash.  If X is never emitted as a plain token (the escaper
+    always escapes it), X is always directly preceded by its own escaping backslash and every match is that pair.
+    `earlier` are the rewrites applied before this one; the text still has the escaper's token structure only if they are
+    the quote escape (which turns the plain token `"` into a pair and touches nothing else), the un-escape of a quote pair
+    the escaper always emits, or cannot match at all."""
+    if model is None or len(a) != 2 or a[0] != "\\" or a == b:
+        return None
+    ch = a[1]
+    if ch in ("\\", '"') or not model.plain(ch):
+        return None
+    for l in earlier:
+        if l.tag == "rep" and ((l.args[1], l.args[2]) == ('"', '\\"') or l.args[1] == l.args[2] or any(not 0x20 <= ord(c) <= 0x7E for c in l.args[1])):
+            continue
+        if l.tag == "rep" and (l.args[1], l.args[2]) == ("\\'", "'") and not model.plain("'") and ch != "'":
+            continue  # every match is the escaper's own pair for the quote byte (second case of the lemma): other tokens are untouched
+        return False, f"{a!r} -> {b!r} is applied to escaped text that was rewritten before in a way that is not understood ({_show(l)[-60:]})"
+    why = (f"{model.name} leaves {ch!r} unescaped and writes the backslash byte as two backslashes, so for the bytes backslash + {ch!r} the replacement "
+           f"{a!r} -> {b!r} matches the second half of the escaped backslash followed by the plain {ch!r}, not an escape pair of the escaper")
+    if b[:1] == "\\":
+        return False, why + "; the replacement starts with a backslash itself - the decoded value is not worked out"
+    return True, why + ": the escaped backslash is split and the backslash byte is lost (the text no longer decodes to the value)"
 
 
 def _literal_body(kind, val, guessed, bad, und):
@@ -1519,13 +1679,13 @@ class _Dec(_Interp):
                 return _BINOPS[type(e.op)](a, b)
             except Exception:
                 return _NOHOOK
-        # a constant mask / modulus applied to the code of a symbolic character: kept as a term, judged by a known-bits /
-        # interval lemma in the rule (never by trying values)
+        # a constant mask / modulus applied to the code of a symbolic character or to the number parsed from symbolic hex
+        # digits: kept as a term, judged by a known-bits / interval lemma in the rule (never by trying values)
         if isinstance(e.op, ast.BitAnd):
             for x, y in ((a, b), (b, a)):
-                if isinstance(x, _Sym) and x.tag in ("ord", "mask") and isinstance(y, int) and not isinstance(y, bool):
+                if isinstance(x, _Sym) and x.tag in ("ord", "mask", "int") and isinstance(y, int) and not isinstance(y, bool):
                     return _Sym("mask", (x, "&", y))
-        if isinstance(e.op, ast.Mod) and isinstance(a, _Sym) and a.tag in ("ord", "mask") and isinstance(b, int) and not isinstance(b, bool):
+        if isinstance(e.op, ast.Mod) and isinstance(a, _Sym) and a.tag in ("ord", "mask", "int") and isinstance(b, int) and not isinstance(b, bool):
             return _Sym("mask", (a, "%", b))
         return _NOHOOK
 
@@ -1692,6 +1852,48 @@ def _hexbyte(v, positions):
     return isinstance(v, _Sym) and v.tag == "int" and v.args == (tuple(positions), 16)
 
 
+def _low_pair(v, want):
+    """Is `v` provably the value of the hex digit pair at offsets `want` (the low byte of the escape)?  True / False / None.
+
+    Named assumption: the characters of the escape are hexadecimal digits (the documented forms \\xHH, \\uHHHH), so
+    int(<n digits>, 16) ranges over exactly 0 .. 16**n - 1 and, when the digits end with the pair `want`,
+      lemma L7: int(<n digits>, 16) == 256 * int(<first n-2 digits>, 16) + int(<last two digits>, 16), 0 <= low <= 255;
+      hence  X & K == low for every X  iff  K & (16**n - 1) == 0xFF  (known bits: bits 0..7 must survive, bits 8..4n-1 must be
+             cleared; every one of these bits is set in some X of the range and they are independent),
+             X % K == low for every X  iff  K == 256 when n > 2 (X = K forces 256 | K, X = 256 then forces K == 256),
+                                            K > 255 when n == 2 (x % K == x exactly when 0 <= x < K)."""
+    if not isinstance(v, _Sym):
+        return False
+    if v.tag == "int":
+        return v.args == (tuple(want), 16)
+    if v.tag != "mask":
+        return None
+    ops = []
+    while isinstance(v, _Sym) and v.tag == "mask":
+        ops.append((v.args[1], v.args[2]))
+        v = v.args[0]
+    if not (isinstance(v, _Sym) and v.tag == "int"):
+        return None
+    pos, base = v.args
+    n = len(pos)
+    if base != 16 or n < 2 or tuple(pos) != tuple(range(pos[0], pos[0] + n)):
+        return None
+    if tuple(pos[-2:]) != tuple(want):
+        # the digits do not end with the low pair: a mask only removes information, the low pair cannot be recovered when
+        # it was not parsed at all; other arrangements are not modelled
+        return False if not set(want) & set(pos) else None
+    ops.reverse()  # innermost first
+    if all(op == "&" for op, _ in ops):
+        k = -1
+        for _, c in ops:
+            k &= c
+        return (k & (16 ** n - 1)) == 0xFF
+    if len(ops) == 1:
+        k = ops[0][1]
+        return k == 256 if n > 2 else k > 255
+    return None
+
+
 def _is_unknown(v):
     return isinstance(v, _Sym) and v.tag in ("unk", "buf")
 
@@ -1785,7 +1987,7 @@ def r2(ctx):
                     continue
                 if all(out for _, _, out in cks):
                     if p.guessed:
-                        if p.end == "raise" or len(p.appends()) != 1 or not _hexbyte(p.appends()[0], want):
+                        if p.end == "raise" or len(p.appends()) != 1 or _low_pair(p.appends()[0], want) is not True:
                             und.append(f"\\{letter}: a path depends on a condition that is not understood")
                         continue
                     seen_full = True
@@ -1799,8 +2001,11 @@ def r2(ctx):
                         und.append(f"\\{letter}: appended value not understood")
                     elif consumed != need:
                         bad.append(f"\\{letter} consumes {consumed} characters after the letter (required {need})")
-                    elif not _hexbyte(apps[0], want):
-                        bad.append(f"\\{letter} appends {apps[0]!r}; required int(<characters {want[0] - 2}, {want[1] - 2} after the escape letter>, 16), the low byte pair")
+                    elif _low_pair(apps[0], want) is None:
+                        und.append(f"\\{letter} appends {apps[0]!r}: not known to be the value of the low digit pair")
+                    elif not _low_pair(apps[0], want):
+                        bad.append(f"\\{letter} appends {apps[0]!r}; required int(<characters {want[0] - 2}, {want[1] - 2} after the escape letter>, 16), the low byte pair"
+                                   + (" (a constant mask / modulus over all the digits gives the low pair only if it keeps bits 0..7 and clears every higher bit: & 0xFF, % 256)" if isinstance(apps[0], _Sym) and apps[0].tag == "mask" else ""))
                 else:
                     # not enough characters left: ValueError, nothing appended
                     if p.end == "raise" and p.events[-1][1] == "ValueError" and not p.appends():
@@ -2094,14 +2299,17 @@ def run(ctx):
     rep.explanation = (
         "Static analysis of value_to_string / string_token_to_bytes in c2profile.py and of the STRING terminal; no code is run and no "
         "input is chosen by the checker. Encoder: path-wise value flow under the named assumptions 'the argument is bytes' / 'is str' - "
-        "on every path the returned literal is a term `\"` + X + `\"` over the parameter, a bytes value passes the repr-based escaper "
-        "(quote style pinned by a concatenated double quote, slice constants consistent with that pin) and then the double-quote "
-        "replacement. Decoder: the body of the decoding loop is walked once over an abstract iterator with symbolic characters; the "
+        "on every path the returned literal is a term `\"` + X + `\"` over the parameter, a bytes value passes a known byte-wise escaper "
+        "(repr() with the quote style pinned by a concatenated double quote and slice constants consistent with that pin, or the "
+        "unicode_escape codec over a latin-1 decoding) and then the double-quote replacement; every other replacement applied to the "
+        "escaped text is judged against the escaper's token structure (a pattern backslash + X, X emitted unescaped by that escaper, "
+        "can match the second half of an escaped backslash: violated). Decoder: the body of the decoding loop is walked once over an abstract iterator with symbolic characters; the "
         "cases are the literals / table keys the decoder itself compares a character with, plus one 'any other character' case in which "
         "the character stays symbolic (its code is the term ord(c)). On the resulting event traces: the set of escape letters the "
         "decoder acts on and their byte values are compared with the documented table (the 'other' case must drop the pair silently), "
         "hex escapes check availability before consuming (cursor-offset typestate), consume exactly their digits and append "
-        "int(<low digit pair>, 16), an ordinary character is appended as ord(c) exactly once (a constant mask is judged by a known-bits "
+        "int(<low digit pair>, 16) - or the number parsed from all digits reduced by a constant mask / modulus that provably leaves "
+        "exactly the low byte (known-bits lemma L7) -, an ordinary character is appended as ord(c) exactly once (a constant mask is judged by a known-bits "
         "lemma over 0..255); every escape letter the encoder can emit is one the decoder handles. The STRING regex is inspected on its "
         "parsed syntax tree (opening quote, lazy body whose character class covers every code point - interval cover or complementary "
         "categories -, closing quote preceded by an even run of backslashes)."
@@ -2109,6 +2317,8 @@ def run(ctx):
     rep.not_decided = [
         "the round trip for all byte strings (composition of the lemmas about CPython's repr with the decoder cases is not mechanised)",
         "the 'exactly one token' claim over all inputs (regex matching semantics; only the structure of the pattern is checked)",
+        "escapers other than repr() and the unicode_escape codec, replacements of patterns longer than backslash + one character, hex escapes "
+        "reduced by anything but a constant & / % (reported as undecided)",
         "decoders that carry state between characters, unroll nested loops, or hand the iterator to unmodelled code (reported as undecided)",
         "STRING bodies whose character class uses a single category or scoped flags other than DOTALL (reported as undecided)",
     ]
@@ -2120,9 +2330,15 @@ def run(ctx):
         "the single-quote style; the value's text lies between offset 2 + len(escaped prefix constant) and 1 + len(escaped suffix constant) from the end",
         "lemma L2: repr(bytes) output is printable ASCII with backslashes only as the first character of an escape pair, hence the replacements "
         "'\"' -> '\\\"' and \"\\'\" -> \"'\" commute and a pattern with a non-printable character never matches",
+        "lemma L1b: the unicode_escape codec on latin-1 decoded bytes emits printable ASCII other than the backslash as itself (both quote characters "
+        "unescaped), the backslash doubled, TAB/LF/CR as backslash + t/n/r, everything else as backslash + x + two hex digits; the output is ASCII",
+        "lemma L2b: in the output of these escapers a backslash is always the first character of a token; str.replace scans left to right, so a pattern "
+        "backslash + X with X a plain token matches inside backslash backslash X at the second backslash",
         "lemma L3: ord and chr are inverse bijections (ord(c) == k <=> c == chr(k))",
         "lemma L4: a one-character string c is `in` a str s iff c is one of the characters of s; it equals no string of another length and no non-string",
         "lemma L5: for 0 <= x <= 255, x & K == x iff the low eight bits of K are all set, and x % K == x iff K > 255",
+        "lemma L7 (assumption: the characters of a hex escape are hex digits): int(<n digits>, 16) covers 0..16**n - 1 and is 256 * <leading digits> + "
+        "<low pair>; `& K` yields the low pair iff K & (16**n - 1) == 0xFF, `% K` iff K == 256 (n > 2) or K > 255 (n == 2)",
         "lemma L6: a regex category and its negation partition the characters; `.` matches every character except code 10 unless DOTALL",
     ]
     r1(ctx)
